@@ -5,7 +5,7 @@ from evalutil import *
 
 ID = "C10"
 LEVEL = "proof"
-MODULES = ["H3Proofs.Props.C10", "H3Proofs.Props.C10Res1", "H3Proofs.Props.C10Valid"]
+MODULES = ["H3Proofs.Props.C10", "H3Proofs.Props.C10Res1", "H3Proofs.Props.C10Valid", "H3Proofs.Props.C11Pent"]
 THEOREMS = "auto"
 ASSUMPTIONS = ["model of cellsToDirectedEdge / getDirectedEdgeOrigin / getDirectedEdgeDestination / "
                "isValidDirectedEdge / originToDirectedEdges over generated bit macros, tied by exact correspondence",
